@@ -276,6 +276,9 @@ def cases(shard, tier):
                     continue        # the rejected call is the very first call on the logical file: nothing to refer to
                 for named in (False, True):
                     yield {'kindrej': k, 'where': where, 'named': named}
+        # the logical file's FIRST add_origin call is refused after objects of other kinds exist; then an origin is added
+        for named in (False, True):
+            yield {'kindrej': 'origin', 'where': 'no-origin-yet', 'named': named}
         return
     for final in FINALS:
         yield {'fw': [shard['fw']], 'final': final}
@@ -412,6 +415,10 @@ def kind_specs(c):
     else:
         full, clean = [rej, dict(rej, h='RJ2'), ok1], [ok1]
     mk = lambda ops: {'sul': {'max_record_length': 8192}, 'ops': base + ops, 'write': {}}
+    if c['where'] == 'no-origin-yet':
+        late = [ok1, S.op_add('zone', 'ZL', 'ZONE-ADDED-LAST')]
+        return ({'sul': {'max_record_length': 8192}, 'ops': base[:1] + base[2:] + [rej] + late, 'write': {}},
+                {'sul': {'max_record_length': 8192}, 'ops': base[:1] + base[2:] + late, 'write': {}})
     if c['where'] == 'first-of-all':
         # rejected before anything else exists (also before the first origin); objects of the kind are added at the end
         # (right after the origin if they need nothing else, so that everything else is created after them)
